@@ -31,7 +31,8 @@ func init() {
 const carCT = "application/vnd.ipld.car"
 
 var c20Elems = []string{carCT, "*/*", "text/html", "application/json", carCT + ";q=0.5", "*/*;q=0.8", carCT + "x", "x" + carCT,
-	" " + carCT + " ", "\t*/*", carCT + "+json", "*/*x", "APPLICATION/VND.IPLD.CAR", "*", "", ";" + carCT, carCT + " ;q=1", "text/*"}
+	" " + carCT + " ", "\t*/*", carCT + "+json", "*/*x", "APPLICATION/VND.IPLD.CAR", "*", "", ";" + carCT, carCT + " ;q=1", "text/*",
+	carCT + ";q", "*/*;q", carCT + ";", carCT + ";q=0", "*/*;q=0", carCT + ";=", carCT + ";q=;v", "text/html;q", ";", ";q"}
 var c20CTs = []string{"-", carCT, "application/json", carCT + "; version=1", carCT + "x", "application/car", " " + carCT}
 var c20Bodies = []string{"valid", "valid0", "empty", "garbage", "nonmsg", "noroot", "missinginv"}
 
